@@ -420,6 +420,7 @@ func runSocket(e *Env, hostile bool) {
 	// consumer
 	consumerDone := false
 	paused := false
+	away, awayDone, workloadOver := false, false, false
 	s.Spawn("consumer", func() {
 		in := r.sock.Inbound()
 		for {
@@ -428,6 +429,15 @@ func runSocket(e *Env, hostile bool) {
 			}
 			if c.Consumer == "slow" && e.Choose("wl.cslow", 3) == 0 {
 				s.SleepFor(time.Duration(1+e.Choose("wl.cslowamt", 20)) * 100 * time.Microsecond)
+			}
+			if c.Consumer == "slow" && !hostile && !awayDone && !workloadOver && e.Choose("wl.clong", 40) == 0 {
+				// an application that stays away for seconds (once per run): the frame in the
+				// receiver's hand waits
+				awayDone = true
+				e.Fault("consumer-away-for-seconds")
+				away = true
+				s.SleepFor(time.Duration(1100+e.Choose("wl.clongamt", 2000)) * time.Millisecond)
+				away = false
 			}
 			v, ok := simrt.Recv2("consumer", in)
 			if !ok {
@@ -555,6 +565,8 @@ func runSocket(e *Env, hostile bool) {
 		}
 	})
 	e.WaitDone("workload", 30*time.Second, func() bool { return peerDone && sendersLeft == 0 })
+	workloadOver = true
+	e.WaitDone("consumer-back", 5*time.Second, func() bool { return !away })
 	s.SleepFor(50 * time.Millisecond) // everything in flight arrives and is consumed
 	// the end
 	r.endAt = e.Stamp()
@@ -585,6 +597,16 @@ func runSocket(e *Env, hostile bool) {
 		}
 		paused = false
 	case "peer-eof":
+		if !hostile && e.Choose("wl.eofmidframe", 2) == 0 {
+			// the peer goes away in the middle of a frame: the part that arrived is no frame, the
+			// receiver ends and Inbound is closed all the same
+			f := gen.valid(false)
+			if len(f.raw) > 7 {
+				tcpPeer.Write(f.raw[:6+e.Choose("wl.eofcut", len(f.raw)-6)])
+				e.Fault("tcp-peer-closes-inside-frame")
+				s.SleepFor(time.Millisecond)
+			}
+		}
 		tcpPeer.Close()
 	case "peer-rst":
 		tcpPeer.Reset()
